@@ -725,3 +725,14 @@ CHECKS["C10"]["text"] += (
 CHECKS["C13"]["text"] += (
     " The missing-key corruption removes each mandatory key in turn (all "
     "documented keys for every measurement and for fluorescence).")
+CHECKS["C05"]["text"] += (
+    " The pixelation law runs at four pixel sizes on every table.")
+CHECKS["C11"]["text"] += (
+    " Truth values given as non-zero fractions (number, text, bytes, "
+    "negative) are true.")
+CHECKS["C09"]["text"] += (
+    " Every join input has a frame rate of its own.")
+CHECKS["C16"]["text"] += (
+    " After a scatter request the caller overwrites the arrays it was "
+    "handed; the repeated identical request must return events of the "
+    "dataset again.")
